@@ -81,7 +81,7 @@ CHECKS = {
              "stream ending mid-frame; msize in [24, 8192] boundary-dense; the connection hands the bytes out in generated chunk sizes (1-byte reads, splits "
              "inside the length prefix, large reads). Oracle: per frame, the reference decoder applied to that frame's own bytes and msize (absolute), and the "
              "same frame alone on a fresh channel (isolation). Non-trivial = a non-first frame follows a frame of a different class, or reads split the length prefix.",
-        require_classes=dict(quick=["f_valid", "f_fill", "f_oversize", "f_garbage", "f_short", "f_tiny", "f_badprefix", "f_cutstream", "split_prefix"], thorough=[]),
+        require_classes=dict(quick=["f_valid", "f_fill", "f_oversize", "f_garbage", "f_short", "f_tiny", "f_badprefix", "f_cutstream", "split_prefix", "after_setmsize"], thorough=[]),
         assumptions=["after an impossible length prefix (0..3) or a premature end of stream nothing further is asserted (the position of the next frame is undefined)",
                      "the reference decoder (refwire.Decode) defines which bodies are decodable; it agrees with the library on millions of fuzzed inputs (C01 FuzzDecodeVsRef)"],
     ),
@@ -161,7 +161,7 @@ CHECKS = {
              "Both buffered and rendezvous (net.Pipe-like) connections; msize 400..1 MiB. Oracle: multiset of owed replies; every frame must match an owed reply exactly (tag, "
              "content, marker), handler invoked exactly once per dispatched request with the message sent (inbound Tread count clamp applied), duplicate-tag request gets the "
              "duplicate-tag error and no invocation, nothing extra at quiescence. Non-trivial = handlers completed out of arrival order, or a duplicate-tag step.",
-        require_classes=dict(quick=["duptag", "out_of_order_completion", "pipelined", "rendezvous", "buffered"], thorough=[]),
+        require_classes=dict(quick=["duptag", "duptag_tflush", "out_of_order_completion", "pipelined", "rendezvous", "buffered"], thorough=[]),
         assumptions=["handler results fit in msize (the property's proviso)",
                      "a tag is reused only when its state is certain (handler parked, or reply already read), which keeps the oracle exact",
                      "'no reply within 10 s although the handler returned' counts as a missing reply (normal latency is microseconds)"],
